@@ -13,6 +13,7 @@ implementation's true semantics.
 import importlib
 import importlib.util
 import itertools
+import warnings
 import os
 import shutil
 import subprocess
@@ -323,13 +324,19 @@ def _oracle_one(ctx, impls, seq, scale):
     L = len(x)
     ref = _astm_reference(x.tolist())
     tables = {}
+    x0 = x.copy()
     for name, fn in impls.items():
+        # the plain call first, then with offsets, on the SAME caller-owned float64 array: the caller's data must not
+        # change, and the second call must see what the first one saw
+        rf1 = np.asarray(fn(x, getoffsets=False) if fn.__name__ != "<lambda>" else fn(x))
         rf, os_ = fn(x, getoffsets=True)
         rf = np.asarray(rf)
         os_ = np.asarray(os_)
-        rf1 = np.asarray(fn(x, getoffsets=False) if fn.__name__ != "<lambda>" else fn(x))
         tables[name] = (rf, os_)
         inp = {"seq": list(seq), "scale": scale, "impl": name}
+        if x.tobytes() != x0.tobytes():
+            ctx.fail("input-overwritten", "the caller's peaks array is modified by the call", inp, x.tolist()[:12], x0.tolist()[:12])
+            x = x0.copy()
         if rf.shape != rf1.shape or rf.tobytes() != rf1.tobytes():
             ctx.fail("offsets-vs-plain", "table differs with and without offsets", inp, rf1.tolist(), rf.tolist())
         if 2 * rf[:, 2].sum() != L - 1:
@@ -342,6 +349,37 @@ def _oracle_one(ctx, impls, seq, scale):
             if not (0 <= s < e < L) or r[0] != abs(x[s] - x[e]) / 2 or r[1] != (x[s] + x[e]) / 2:
                 ctx.fail("cycle-values", "row does not match the points its offsets name", inp, [r, o], "amp,mean of x[s],x[e]")
                 break
+    # the same numbers handed over in other dtypes (raw integer counts, single precision): same table
+    if hash(tuple(seq)) % 3 == 0 and L >= 2:
+        si = np.array(seq, dtype=np.int64)
+        variants = [("int64", si, si.astype(float)), ("int32", si.astype(np.int32), si.astype(float)),
+                    ("float32", x.astype(np.float32), x.astype(np.float32).astype(float))]
+        if np.abs(si).max() < 30000:
+            variants.append(("int16", si.astype(np.int16), si.astype(float)))
+            # unsigned counts around mid-scale: every decreasing step would wrap if differenced in the input dtype
+            variants.append(("uint16", (si + 32768).astype(np.uint16), (si + 32768).astype(float)))
+        if 0 <= si.min() and si.max() < 256:
+            variants.append(("uint8", si.astype(np.uint8), si.astype(float)))
+        variants.append(("list", [float(v) for v in x], x))
+        for dt, y, yf in variants:
+            refy = _astm_reference(np.asarray(yf, float).tolist())
+            want = [tuple(float(v) for v in r[:3]) + (r[3], r[4]) for r in refy]
+            for name, fn in impls.items():
+                if name == "wrapper" and dt == "list":
+                    continue
+                try:
+                    with np.errstate(all="ignore"), warnings.catch_warnings():
+                        warnings.simplefilter("ignore")
+                        rfy, osy = fn(y, getoffsets=True)
+                        rfy1 = np.asarray(fn(y, getoffsets=False) if fn.__name__ != "<lambda>" else fn(y))
+                except Exception as e:  # noqa: BLE001
+                    ctx.fail("dtype-" + dt + "-raises", "%s refuses a %s peaks array" % (name, dt),
+                             {"seq": list(seq), "scale": scale, "impl": name, "dtype": dt}, repr(e)[:120], "a cycle table")
+                    continue
+                got = [tuple(r) + tuple(o) for r, o in zip(np.asarray(rfy).tolist(), np.asarray(osy).tolist())]
+                if got != want or np.asarray(rfy).tobytes() != rfy1.tobytes():
+                    ctx.fail("dtype-" + dt, "%s: the table for a %s array differs from the table of the same numbers as float64"
+                             % (name, dt), {"seq": list(seq), "scale": scale, "impl": name, "dtype": dt}, got[:8], want[:8])
     base = tables["py"]
     for name, (rf, os_) in tables.items():
         if rf.tobytes() != base[0].tobytes() or os_.tolist() != base[1].tolist():
